@@ -120,6 +120,11 @@ def b_dicts():
     p.add_argument("--d", type=Dict[str, int], default={"k": 1})
     p.add_argument("--di", type=Dict[int, List[int]], default={})
     p.add_argument("--dd", type=Dict[str, Dict[str, float]], default={})
+    from typing import Optional, OrderedDict
+
+    from .fixtures import Color
+
+    p.add_argument("--od", type=Optional[OrderedDict[str, Color]], default=None)  # an ordered mapping whose values are converted (names <-> members)
     return p
 
 
@@ -135,7 +140,10 @@ def s_dicts():
     dd = {}
     if S.flag("dd.a?"):
         dd["a"] = {"b": S.int("dd.a.b")}
-    return dict(d=d, di=di, dd=dd)
+    out = dict(d=d, di=di, dd=dd)
+    if S.flag("od?"):
+        out["od"] = {"a": S.pick("od.a", ["RED", "GREEN"])}
+    return out
 
 
 def b_tuples():
